@@ -1081,6 +1081,24 @@ def audit_closures(d, sf, lo, hi, ed, fname, entry, r3b=False):
                     ed.insert_before(body, [Piece("-> (r__: %s) ensures r__ == %s, { " % (ret, spec.replace("$x", params[0])), label="kw")])
                     ed.insert_before(bend, [Piece(" }", label="kw")])
                     done = True
+        if not done and not block and len(inner) == 1:
+            # `|x| CONST` / `|_| CONST`: the value is the constant; its type is read from the `const CONST: T = ..` item of the same file
+            sig = [k for k in range(body, bend) if toks[k].kind not in TRIVIA]
+            if len(sig) == 1 and toks[sig[0]].kind == "ident" and re.match(r"^[A-Z][A-Z0-9_]*$", toks[sig[0]].text):
+                cname = toks[sig[0]].text
+                allsig = [k for k in range(len(toks)) if toks[k].kind not in TRIVIA]
+                for q in range(len(allsig) - 3):
+                    if toks[allsig[q]].text == "const" and toks[allsig[q + 1]].text == cname and toks[allsig[q + 2]].text == ":":
+                        r_ = q + 3
+                        ty = []
+                        while r_ < len(allsig) and toks[allsig[r_]].text != "=":
+                            ty.append(toks[allsig[r_]].text)
+                            r_ += 1
+                        tytxt = " ".join(ty).replace("& str", "&'static str").replace("& [", "&'static [")
+                        ed.insert_before(body, [Piece("-> (r__: %s) ensures r__ == %s, { " % (tytxt, cname), label="kw")])
+                        ed.insert_before(bend, [Piece(" }", label="kw")])
+                        done = True
+                        break
         (auto if done else new_plain).append(txt)
     entry["closure_texts"] = texts
     entry["new_unannotated_closures"] = new_plain
